@@ -259,6 +259,11 @@ def local_assigned(frame, name):
     return hasattr(frame, name)
 
 
+def abstract_result(fn, *args):
+    """The value the pure parser `fn` returns for these arguments (natively: call it)."""
+    return fn(*args)
+
+
 def starts_with(x, lit):
     return x.startswith(lit)
 
